@@ -329,3 +329,58 @@ Section LoadParentOrder.
         injection Eb as _ Eb. destruct l1'; discriminate.
   Qed.
 End LoadParentOrder.
+
+(* ---- every loaded history sits at an existing folder of the tree ---- *)
+Section LoadRoots.
+  Variable C : Type.
+  Variable cdig : C -> text.
+
+  Lemma lookup_kid_In' n k (kids : list (text * node C)) : NoDup (map fst kids) -> In (n, k) kids -> lookup_kid C n kids = Some k.
+  Proof.
+    induction kids as [|[m k0] ks IH]; intros Hn Hin; [destruct Hin|]. cbn in Hn. inversion Hn as [|? ? Hm Hn']; subst.
+    cbn [lookup_kid]. destruct Hin as [E|Hin].
+    - injection E as -> ->. rewrite text_eqb_refl. reflexivity.
+    - destruct (text_eqb_spec n m) as [->|Hne]; [exfalso; apply Hm; apply in_map_iff; exists (m, k); auto|apply IH; auto].
+  Qed.
+
+  Theorem discover_roots : forall t p parent l, wf_tree C t -> discover C cdig p parent t = inl l ->
+    forall hh, In hh l -> exists rel, lh_root hh = p ++ rel /\ get C t rel <> None.
+  Proof.
+    induction t as [c|h kids IH] using node_ind'; intros p parent l Hw Hl hh Hin.
+    - cbn in Hl. injection Hl as <-. destruct Hin.
+    - inversion Hw as [|? ? Hnames Hkids]; subst. rewrite discover_dir in Hl.
+      assert (Hk : forall par lk, combine_results (sort name_leb (kid_results C cdig p par kids)) = inl lk ->
+                   forall x, In x lk -> exists rel, lh_root x = p ++ rel /\ get C (Dir h kids) rel <> None).
+      { intros par lk Hc x Hx. destruct (combine_results_concat _ _ Hc) as [ls [-> Hf]].
+        apply in_concat in Hx. destruct Hx as [lx [Hlx Hx]].
+        destruct (Forall2_In_l _ _ _ Hf lx Hlx) as [r [Hr Hrx]].
+        apply sort_In in Hr. unfold kid_results in Hr. apply in_map_iff in Hr. destruct Hr as [nk [<- Hnk]]. cbn [snd] in Hrx.
+        rewrite Forall_forall in IH, Hkids. destruct (IH nk Hnk _ _ _ (Hkids nk Hnk) Hrx x Hx) as [rel [E Hg]].
+        exists (fst nk :: rel). split; [rewrite E, <- app_assoc; reflexivity|].
+        destruct nk as [n k]. cbn [get fst snd] in *. rewrite (lookup_kid_In' n k kids Hnames Hnk). exact Hg. }
+      destruct h as [hh0|].
+      + destruct (check_chain C cdig hh0); [discriminate|].
+        destruct (combine_results (sort name_leb (kid_results C cdig p p kids))) as [below|e] eqn:Ec; [|discriminate].
+        injection Hl as <-. apply in_app_or in Hin. destruct Hin as [Hin|[<-|[]]].
+        * eapply Hk; eauto.
+        * exists []. split; [cbn; rewrite app_nil_r; reflexivity|cbn; discriminate].
+      + eapply Hk; eauto.
+  Qed.
+
+  Theorem load_roots_exist t hs : wf_tree C t -> load C cdig t = inl hs -> Forall (fun h => get C t (lh_root h) <> None) hs.
+  Proof.
+    intros Hw Hl. apply Forall_forall. intros hh Hin. destruct t as [c|h kids].
+    - cbn in Hl. injection Hl as <-. destruct Hin as [<-|[]]. cbn. discriminate.
+    - inversion Hw as [|? ? Hnames Hkids]; subst. rewrite load_dir in Hl.
+      destruct (match h with Some hh0 => check_chain C cdig hh0 | None => None end); [discriminate|].
+      destruct (combine_results (sort name_leb (kid_results C cdig [] [] kids))) as [below|e] eqn:Ec; [|discriminate].
+      injection Hl as <-. apply in_app_or in Hin. destruct Hin as [Hin|[<-|[]]].
+      + destruct (combine_results_concat _ _ Ec) as [ls [-> Hf]].
+        apply in_concat in Hin. destruct Hin as [lx [Hlx Hx]].
+        destruct (Forall2_In_l _ _ _ Hf lx Hlx) as [r [Hr Hrx]].
+        apply sort_In in Hr. unfold kid_results in Hr. apply in_map_iff in Hr. destruct Hr as [nk [<- Hnk]]. cbn [snd] in Hrx.
+        rewrite Forall_forall in Hkids. destruct (discover_roots (snd nk) _ _ _ (Hkids nk Hnk) Hrx hh Hx) as [rel [E Hg]].
+        rewrite E. destruct nk as [n k]. cbn [app get fst snd] in *. rewrite (lookup_kid_In' n k kids Hnames Hnk). exact Hg.
+      + destruct h; cbn; discriminate.
+  Qed.
+End LoadRoots.
